@@ -126,6 +126,7 @@ theorem C06_frame (d : Disk) (hwf : d.WF) (h : Bytes) (e : Ev)
     (d.apply e).get (.cas h) = d.get (.cas h) := by
   cases e with
   | mkdir p => exact Disk.get_mkdir d p _
+  | mkdirTree => rfl
   | flock => rfl
   | creat f t =>
     rw [Disk.get_creat]
